@@ -48,6 +48,85 @@ fn build_inner(f: &Facts, mode: Mode) -> Result<Ontology, String> {
     }
 }
 
+/// Like `build`, but with calls that must be rejected interleaved between the valid ones: before every
+/// `add_parent` the same call with the parent, then with the child, replaced by an absent term id; after
+/// every `annotate_*` the same call (same record, then a record id used nowhere else) with an absent term id.
+/// Every such call must return an error; the caller compares the result with the model of the valid facts alone.
+/// Err("accepted: ...") when a call naming an absent term returns Ok.
+pub fn build_with_rejected(f: &Facts, mode: Mode, absent: &[u32]) -> Result<Ontology, String> {
+    match guard(|| build_rejected_inner(f, mode, absent)) {
+        Ok(r) => r,
+        Err(msg) => Err(format!("panic: {msg}")),
+    }
+}
+
+fn build_rejected_inner(f: &Facts, mode: Mode, absent: &[u32]) -> Result<Ontology, String> {
+    let mut b = Builder::new();
+    for t in &f.terms {
+        b.new_term(&t.name, t.id);
+    }
+    b.set_hpo_version(f.version);
+    let mut b = b.terms_complete();
+    let mut k = 0usize;
+    let mut next_absent = || {
+        k += 1;
+        absent[k % absent.len()]
+    };
+    for &(c, p) in &f.edges {
+        let x = next_absent();
+        if b.add_parent(x, c).is_ok() {
+            return Err(format!("accepted: add_parent(parent={x} (absent), child={c})"));
+        }
+        if b.add_parent(p, x).is_ok() {
+            return Err(format!("accepted: add_parent(parent={p}, child={x} (absent))"));
+        }
+        b.add_parent(p, c).map_err(|e| format!("add_parent({p},{c}): {e}"))?;
+    }
+    if let Some(t) = f.terms.first() {
+        let x = next_absent();
+        if b.add_parent(x, t.id).is_ok() || b.add_parent(t.id, x).is_ok() {
+            return Err(format!("accepted: add_parent with the absent term {x}"));
+        }
+    }
+    let mut b = b.connect_all_terms();
+    let fresh = 4_000_000u32;
+    for a in &f.anns {
+        let x = next_absent();
+        match (a.kind, a.term) {
+            (Kind::Gene, Some(t)) => {
+                b.annotate_gene(a.id.into(), &a.name, t.into()).map_err(|e| format!("annotate_gene({},{t}): {e}", a.id))?;
+                if b.annotate_gene(a.id.into(), &a.name, x.into()).is_ok() || b.annotate_gene(fresh.into(), "NEVER", x.into()).is_ok() {
+                    return Err(format!("accepted: annotate_gene(.., {x} (absent))"));
+                }
+            }
+            (Kind::Omim, Some(t)) => {
+                b.annotate_omim_disease(a.id.into(), &a.name, t.into()).map_err(|e| format!("annotate_omim_disease({},{t}): {e}", a.id))?;
+                if b.annotate_omim_disease(a.id.into(), &a.name, x.into()).is_ok() || b.annotate_omim_disease(fresh.into(), "NEVER", x.into()).is_ok() {
+                    return Err(format!("accepted: annotate_omim_disease(.., {x} (absent))"));
+                }
+            }
+            (Kind::Orpha, Some(t)) => {
+                b.annotate_orpha_disease(a.id.into(), &a.name, t.into()).map_err(|e| format!("annotate_orpha_disease({},{t}): {e}", a.id))?;
+                if b.annotate_orpha_disease(a.id.into(), &a.name, x.into()).is_ok() || b.annotate_orpha_disease(fresh.into(), "NEVER", x.into()).is_ok() {
+                    return Err(format!("accepted: annotate_orpha_disease(.., {x} (absent))"));
+                }
+            }
+            (Kind::Gene, None) => b.add_gene(&a.name, a.id.into()),
+            (Kind::Omim, None) => {
+                b.add_omim_disease(&a.name, a.id.into());
+            }
+            (Kind::Orpha, None) => {
+                b.add_orpha_disease(&a.name, a.id.into());
+            }
+        }
+    }
+    let b = b.calculate_information_content().map_err(|e| format!("calculate_information_content: {e}"))?;
+    match mode {
+        Mode::Minimal => Ok(b.build_minimal()),
+        Mode::Defaults => b.build_with_defaults().map_err(|e| format!("build_with_defaults: {e}")),
+    }
+}
+
 /// `Ontology::from_bytes` under catch_unwind. Ok(Ok(ont)) / Ok(Err(error text)) / Err(panic text)
 pub fn from_bytes(bytes: &[u8]) -> Result<Result<Ontology, String>, String> {
     guard(|| Ontology::from_bytes(bytes).map_err(|e| e.to_string()))
